@@ -170,6 +170,7 @@ type Gen struct {
 	faultRate          float64
 	lateType           pb.MessageType
 	lateTypeP          float64
+	exploited          bool // the first violation of another property has been followed up
 }
 
 func pick(rng *rand.Rand, ws []float64) int {
@@ -457,6 +458,23 @@ func (g *Gen) after() {
 		g.schedule(&event{at: g.now + g.netDelay()*3 + tickUnit, kind: evSnapReport, n: k.from, m: k.to, ok: ok})
 	}
 	c.SnapSent = c.SnapSent[:0]
+	// monitor-guided fault: the first time an oracle of *another* property fires
+	// at a node (the run goes on, see Checker.report), crash that node at once,
+	// losing everything that is not durable, and restart it soon. On a tree on
+	// which that other property is broken this is the fault that most often
+	// turns the local anomaly (a promise that is not durable, a hard state that
+	// was not exposed, a log view that disagrees with storage) into a violation
+	// of the property under check. On a tree on which every property holds no
+	// oracle fires and nothing is drawn.
+	if f := c.foreign; f != nil && !g.exploited {
+		g.exploited = true
+		if n := c.nodes[f.Node]; n != nil && n.up && !g.faultFree && c.viol == nil && chance(g.rng, 0.8) {
+			c.stats.fault("crash_following_foreign_violation")
+			g.do(Action{K: ACrash, N: n.id, I: 0, J: 0})
+			down := int64((0.1 + 1.0*g.rng.Float64()) * float64(n.cfg.ElectionTick) * tickUnit)
+			g.schedule(&event{at: g.now + down, kind: evRestart, n: n.id})
+		}
+	}
 	for _, id := range c.ids {
 		n := c.nodes[id]
 		gn := g.gn[id]
